@@ -98,7 +98,7 @@ CHECKS = {
                 "the snapshot of all settings must change in exactly that key to the value the text literally denotes, get/has must agree. Mutated keys must be refused by Processor.set, "
                 "sequential and dask observations (product/sequential), and run_mode overrides before any probe model runs and without inventing attributes; sweeping an argument of a disabled model must raise. Exploration.",
         "design_ref": "DESIGN.md section 3, C08",
-        "note": "Ambiguous textual spellings (quotes, blanks, hex, True/None) are not generated. Calibration entry point for invalid keys is exercised in C10. Part 'nested': keys inside mapping- / list-of-mappings-valued arguments over a generated history of set / replace / create_new_processor / deepcopy on a pool of processors (finding F35, fixed). The nested part also issues misspelt nested keys, which set / replace must refuse. List values draw explicit zero elements (falsy but valid). For a model's enabled flag the texts 'True' / 'False' are assigned too (what a command-line override passes). List texts with quoted elements denote lists of strings.",
+        "note": "Ambiguous textual spellings (quotes, blanks, hex, True/None) are not generated. Calibration entry point for invalid keys is exercised in C10. Part 'nested': keys inside mapping- / list-of-mappings-valued arguments over a generated history of set / replace / create_new_processor / deepcopy on a pool of processors (finding F35, fixed). The nested part also issues misspelt nested keys, which set / replace must refuse. List values draw explicit zero elements (falsy but valid). For a model's enabled flag the texts 'True' / 'False' are assigned too (what a command-line override passes). List texts with quoted elements denote lists of strings. Part 'command_line': pyxel.run(<yaml file>, override=['key=text', ...]) - the path `pyxel run --override` takes - with tracing models as observers.",
     },
     "C05": {
         "technique": "property-based testing: generated parameter spaces (product / sequential / custom, scalar and vector parameters, colliding names, numpy expressions, disabled parameters) against itertools reference enumerators; echo probes encode received values so that label-based selection is checkable",
